@@ -213,6 +213,68 @@ func runC15(c *rt.Ctx) {
 			w.NTHash(rt.HashU(uint64(from), uint64(to), uint64(probe), uint64(nc)))
 		}
 	})
+	// far years (legal through New, UnmarshalBinary and the parser with a raised limit)
+	c.Parallel("far-years", 0, func(w *rt.W) {
+		anchors := []int64{ref.Ordinal(2020, 1, 1), ref.Ordinal(5000000, 1, 1), ref.Ordinal(-5000000, 6, 15), ref.Ordinal(4194304, 12, 31), ref.Ordinal(4194305, 1, 1), ref.Ordinal(-4194305, 1, 1),
+			ref.Ordinal(999999999, 12, 31), ref.Ordinal(-999999999, 1, 1), ref.Ordinal(65536, 2, 29), ref.Ordinal(32768, 1, 1), ref.Ordinal(8388608, 3, 1), ref.Ordinal(16777216, 1, 1), ref.Ordinal(268435456, 2, 29), ref.Ordinal(536870912, 2, 29), ref.Ordinal(-1, 12, 31), ref.Ordinal(10000, 1, 1)}
+		for k := 4; k < 30; k++ {
+			anchors = append(anchors, ref.Ordinal(int64(1)<<uint(k), 1, 1), ref.Ordinal(int64(1)<<uint(k)-1, 12, 31), ref.Ordinal(-(int64(1)<<uint(k)), 7, 4))
+		}
+		n := 0
+		for i, a := range anchors {
+			for _, b := range anchors {
+				n++
+				if n%w.NShards != w.Shard {
+					continue
+				}
+				for nc := 0; nc < 4; nc++ {
+					probe := anchors[(i*7+nc)%len(anchors)]
+					c15Case(w, a, b, probe, nc&1 == 1, nc&2 == 2, a, b, a-1, b+1, a+366, b-366)
+					w.NT(1)
+				}
+				w.ClassN("far-year-bounds", 1)
+			}
+		}
+	})
+	c.Require("far-year-bounds", 1000)
+	// a filter is probed repeatedly: the answer must not depend on what was asked before
+	c.Parallel("probe-histories", 0, func(w *rt.W) {
+		for k := 0; k < 20000/w.NShards; k++ {
+			from := window[w.Rng.Intn(len(window))]
+			to := from + int64(w.Rng.Intn(40))
+			f, err := date.FilterFromTo(func() *date.Date { d := ordDate(from); return &d }(), func() *date.Date { d := ordDate(to); return &d }())
+			if err != nil || f == nil {
+				continue
+			}
+			pool := []int64{from - 2, from - 1, from, from + 1, to - 1, to, to + 1, to + 2, (from + to) / 2}
+			for step := 0; step < 60; step++ {
+				p := pool[w.Rng.Intn(len(pool))]
+				if step%3 == 1 { // repeat the previous probe
+					p = pool[(step/3)%len(pool)]
+				}
+				w.Eval(1)
+				if got, want := f.Contains(ordDate(p)), p >= from && p <= to; got != want {
+					w.Fail("contains-depends-on-probe-history", "filter", rt.Args("from_ordinal", from, "to_ordinal", to, "probe_ordinal", p, "from_nil", false, "to_nil", false, "step", step), fmt.Sprint(got), fmt.Sprint(want), "the same filter gave a wrong answer after a sequence of earlier probes")
+					break
+				}
+			}
+			w.ClassN("probe-history", 1)
+		}
+	})
+	c.Require("probe-history", 10000)
+	for _, loc := range hostileZones()[:6] {
+		loc := loc
+		withLocal(loc, func() {
+			c.Parallel("zones/"+loc.String(), 0, func(w *rt.W) {
+				for i := w.Shard; i < len(window); i += w.NShards {
+					for _, to := range window {
+						c15Case(w, window[i], to, to, false, false, window[i], to-1, window[i]+1)
+					}
+				}
+				w.ClassN("local-zone-sweep", 1)
+			})
+		})
+	}
 	c.Require("construction-refused", 10000)
 	c.Require("filter-probed", 1000000)
 }
